@@ -3,6 +3,7 @@ import Mieru.Proofs.C08Handshake
 import Mieru.Proofs.C09
 import Mieru.Proofs.C09LE
 import Mieru.Gen.Consts
+import Mieru.Gen.FactsC08
 /-!
 # C08 — clocks within one minute agree on keys; stale segments are refused; cached key
 # material is never used for another slot
@@ -120,38 +121,42 @@ theorem minuteU32_eq (t : Int) (ht : 0 ≤ t) (hw : t < 257698037760000000000) :
   Mieru.Proofs.C08.minuteU32_eq t ht hw
 
 /-- **Cached key material is never used for another slot.**  For every history of cache
-    lookups and `tryDecryptAt` calls — arbitrary (also decreasing) instants, arbitrary jitter
-    draws, any validity interval, starting from any state whose entries were produced by the cache itself — the entry
-    used by each operation carries exactly the keys derived for the slot of that operation's
-    instant. -/
+    lookups and `tryDecryptAt` calls of ANY NUMBER of decryptors sharing the password — arbitrary (also
+    decreasing) wall-clock instants, arbitrary monotonic readings (also disagreeing with the wall clock, as
+    after a clock step), arbitrary jitter draws, any validity interval, starting from any state whose
+    entries were produced by the cache itself — the entry used by each operation carries exactly the
+    keys derived for the slot of that operation's wall-clock instant. -/
 theorem cache_never_crosses_slots {K : Type} (validNs : Int) (derive : Int → K) (s : State K)
     (hs : Mieru.Proofs.C08.StateOk derive s) (ops : List Op) :
-    ∀ p ∈ run validNs derive s ops, p.2.epoch = epoch p.1 ∧ p.2.keys = derive (epoch p.1) :=
+    ∀ p ∈ run validNs derive s ops, p.2.epoch = epoch p.1.wall ∧ p.2.keys = derive (epoch p.1.wall) :=
   Mieru.Proofs.C08.run_ok validNs derive s hs ops
 
 /-- …in particular from the empty cache of a fresh process. -/
 theorem cache_never_crosses_slots_from_empty {K : Type} (validNs : Int) (derive : Int → K) (ops : List Op) :
-    ∀ p ∈ run validNs derive State.empty ops, p.2.epoch = epoch p.1 ∧ p.2.keys = derive (epoch p.1) :=
+    ∀ p ∈ run validNs derive State.empty ops, p.2.epoch = epoch p.1.wall ∧ p.2.keys = derive (epoch p.1.wall) :=
   cache_never_crosses_slots validNs derive State.empty Mieru.Proofs.C08.empty_ok ops
 
-/-- **Handshake key under skew.**  Whatever the cache went through before, a receiver whose
-    clock is within 60 s of the sender's tries a key list that contains the key of the sender's
-    current slot (keys indexed by the slot they are derived for). -/
+/-- **Handshake key under skew.**  Whatever the cache and the decryptors went through before, a
+    receiver (any decryptor `dec`) whose wall clock is within 120 s of the instant the sender's key was
+    derived for tries a key list that contains that key (keys indexed by the slot they are derived for;
+    the monotonic reading `mono` of the receiver's instant is irrelevant). -/
 theorem handshake_key_under_skew (s : State (List Int)) (hs : Mieru.Proofs.C08.StateOk slotKeys s)
-    (validNs t d jitterMs : Int) (h1 : -60000000000 ≤ d) (h2 : d ≤ 60000000000) :
-    epoch t ∈ (tryEntry validNs slotKeys s (t + d) jitterMs).1.keys := by
-  have h := (Mieru.Proofs.C08.step_ok validNs slotKeys s hs (.tryDecrypt (t + d) jitterMs)).2.1
+    (dec : Nat) (mono : Option Int)
+    (validNs t d jitterMs : Int) (h1 : -120000000000 ≤ d) (h2 : d ≤ 120000000000) :
+    epoch t ∈ (tryEntry validNs slotKeys s dec ⟨t + d, mono⟩ jitterMs).1.keys := by
+  have h := (Mieru.Proofs.C08.step_ok validNs slotKeys s hs (.tryDecrypt dec ⟨t + d, mono⟩ jitterMs)).2.1
   simp only [step, Op.now] at h
   rw [h]
-  have := slot_agreement t d h1 h2
+  have := Mieru.Proofs.C08.slot_agreement_120 t d h1 h2
   simp only [slotKeys, keyRefreshSec, List.mem_cons, List.not_mem_nil, or_false]
   omega
 
 /-- …and never the key of a slot derived four or more minutes away. -/
 theorem stale_key_never_tried (s : State (List Int)) (hs : Mieru.Proofs.C08.StateOk slotKeys s)
+    (dec : Nat) (mono : Option Int)
     (validNs t d jitterMs : Int) (h : d ≤ -240000000000 ∨ 240000000000 ≤ d) :
-    epoch t ∉ (tryEntry validNs slotKeys s (t + d) jitterMs).1.keys := by
-  have hk := (Mieru.Proofs.C08.step_ok validNs slotKeys s hs (.tryDecrypt (t + d) jitterMs)).2.1
+    epoch t ∉ (tryEntry validNs slotKeys s dec ⟨t + d, mono⟩ jitterMs).1.keys := by
+  have hk := (Mieru.Proofs.C08.step_ok validNs slotKeys s hs (.tryDecrypt dec ⟨t + d, mono⟩ jitterMs)).2.1
   simp only [step, Op.now] at hk
   rw [hk]
   have := Mieru.Proofs.C08.slot_far t d h
@@ -432,6 +437,138 @@ theorem established_session_accepts_original_key (A : Spec.AeadFns) (hA : Spec.A
     exact timestamp_accepted_under_skew_u32 ts tr hts htr hws hwr hs1 hs2
   simp only [recvLaterTcp, hp, hok, if_true]
 
+/-! ## Tie (T): the model equals the definitions REGENERATED from the Go source
+
+`lean/Mieru/Gen/FactsC08.lean` is rewritten on every run by `tools/goextract/c08facts.go` from the working
+tree: `cipherKeyEpoch`, `saltFromTime`, the expiry test of `getCachedCiphers`, the refetch test of
+`tryDecryptAt`, the minute counter and the timestamp test of both `Unmarshal` functions (and the stamp of
+both `Marshal` functions), `mathext.Mid` and `mathext.WithinRange` are translated expression by expression
+over a fixed vocabulary for `time.Time`.  The theorems below say the hand-written model IS that
+translation, so a source change (Round → Truncate or a truncating division, `!=` → `<`, `Before` → `After`,
+margin 1 → 2, a dropped `int64` conversion, a reordered / dropped slot offset, a different minute unit …)
+breaks a proof obligation at build time, in addition to the correspondence run.  What is not an
+expression (which list is ranged over, which index the sender takes, what is hashed, which fields the stored
+entry gets) is pinned by `decide` on facts read off the AST. -/
+
+/-- a model instant in the generated vocabulary -/
+def goTime (t : Instant) : Mieru.Gen.FactsC08.GoTime := ⟨t.wall, t.mono⟩
+
+/-- `cipherKeyEpoch` as written in pkg/cipher/api.go is the model's `epoch` (wall clock only). -/
+theorem epoch_eq_gen (t : Int) (m : Option Int) : epoch t = Mieru.Gen.FactsC08.cipherKeyEpoch ⟨t, m⟩ := rfl
+
+/-- `saltFromTime` as written in pkg/cipher/keygen.go hashes exactly the model's three slot times, in
+    the model's order (previous, current, next). -/
+theorem saltTimes_eq_gen (t : Int) (m : Option Int) :
+    saltTimes t = Mieru.Gen.FactsC08.saltFromTime_times ⟨t, m⟩ := by
+  simp only [saltTimes, epoch, unixSec, slotNs, roundTo, keyRefreshNs, keyRefreshSec, nsPerSec,
+    Mieru.Gen.FactsC08.saltFromTime_times, Mieru.Gen.FactsC08.GoTime.round, Mieru.Gen.FactsC08.GoTime.add,
+    Mieru.Gen.FactsC08.GoTime.unix, Mieru.Gen.keyRefreshIntervalNs, List.map_cons, List.map_nil]
+  have key : ∀ x : Int, [x / 1000000000 - 120, x / 1000000000, x / 1000000000 + 120]
+      = [(x + -120000000000) / 1000000000, x / 1000000000, (x + 120000000000) / 1000000000] := by
+    intro x
+    simp only [List.cons.injEq, and_true, true_and]
+    constructor <;> omega
+  exact key _
+
+/-- `mathext.Mid`, translated statement by statement, is the model's `mid`. -/
+theorem mid_eq_gen (a b c : Int) : mid a b c = Mieru.Gen.FactsC08.mid a b c := by
+  simp only [mid, Mieru.Gen.FactsC08.mid]
+  split <;> split <;> (try split) <;> (try split) <;> simp_all <;> omega
+
+/-- `mathext.WithinRange` is the model's `withinRange`. -/
+theorem withinRange_eq_gen (v t m : Int) : withinRange v t m = Mieru.Gen.FactsC08.withinRange v t m := by
+  simp only [withinRange, Mieru.Gen.FactsC08.withinRange, mid_eq_gen]
+  by_cases h : Mieru.Gen.FactsC08.mid v (t - m) (t + m) = v <;> simp [h]
+
+/-- The expiry test of `getCachedCiphers` as written in pkg/cipher/cache.go (with the validity interval
+    compiled from the source, jitter = the drawn milliseconds) is the model's `expired`: epoch compared
+    with `!=`, age compared with `Before` on `createTime.Add(cacheValidInterval - jitter)`. -/
+theorem expired_eq_gen {K : Type} (e : Entry K) (now : Instant) (j : Int) :
+    expired Mieru.Gen.cacheValidIntervalNs e now j ↔
+      Mieru.Gen.FactsC08.getCachedCiphers_expired false e.epoch (goTime e.createTime) (goTime now) j := by
+  simp only [expired, Mieru.Gen.FactsC08.getCachedCiphers_expired, goTime, ← epoch_eq_gen, Instant.add, Instant.before,
+    Mieru.Gen.FactsC08.GoTime.add, Mieru.Gen.FactsC08.GoTime.before]
+  cases e.createTime.mono <;> cases now.mono <;> simp
+
+/-- The refetch test of `tryDecryptAt` as written in pkg/cipher/api.go is the model's `refetch`
+    (`entry == nil || entry.epoch != cipherKeyEpoch(now)`), and `tryEntry` branches on exactly it. -/
+theorem refetch_eq_gen {K : Type} (held : Option (Entry K)) (now : Instant) :
+    refetch held now ↔
+      Mieru.Gen.FactsC08.tryDecryptAt_refetch held.isNone ((held.map (·.epoch)).getD 0) (goTime now) := by
+  cases held <;> simp [refetch, Mieru.Gen.FactsC08.tryDecryptAt_refetch, goTime, ← epoch_eq_gen]
+
+theorem tryEntry_branches_on_refetch {K : Type} (validNs : Int) (derive : Int → K) (s : State K) (dec : Nat)
+    (now : Instant) (j : Int) :
+    tryEntry validNs derive s dec now j =
+      if refetch (s.held dec) now then
+        ((getCached validNs derive s.cache now j).1,
+         ⟨(getCached validNs derive s.cache now j).2, setHeld s.held dec (getCached validNs derive s.cache now j).1⟩)
+      else ((s.held dec).getD (fresh derive now), s) :=
+  Mieru.Proofs.C08.tryEntry_refetch validNs derive s dec now j
+
+/-- The minute counter: `uint32(time.Now().Unix() / 60)` as written in both `Unmarshal` and both
+    `Marshal` functions of pkg/protocol/metadata.go is the model's `minuteU32`. -/
+theorem minuteU32_eq_gen (t : Int) (m : Option Int) :
+    (minuteU32 t : Int) = Mieru.Gen.FactsC08.sessionUnmarshal_currentTimestamp ⟨t, m⟩ ∧
+    (minuteU32 t : Int) = Mieru.Gen.FactsC08.dataAckUnmarshal_currentTimestamp ⟨t, m⟩ ∧
+    (minuteU32 t : Int) = Mieru.Gen.FactsC08.sessionMarshal_stamp ⟨t, m⟩ ∧
+    (minuteU32 t : Int) = Mieru.Gen.FactsC08.dataAckMarshal_stamp ⟨t, m⟩ := by
+  have h : (minuteU32 t : Int) = Int.tdiv (t / 1000000000) 60 % 4294967296 := by
+    simp only [minuteU32, minute, unixSec, nsPerSec]
+    exact Int.toNat_of_nonneg (Int.emod_nonneg _ (by decide))
+  exact ⟨h, h, h, h⟩
+
+/-- The timestamp test of both `Unmarshal` functions (`!mathext.WithinRange(int64(current),
+    int64(original), 1)` ⇒ error; the translator refuses operands that are not `int64` conversions, i.e.
+    the repaired uint32 wrap) is the negation of the model's `tsAccept`. -/
+theorem tsAccept_eq_gen (cur orig : Int) :
+    (tsAccept cur orig = true ↔ ¬ Mieru.Gen.FactsC08.sessionUnmarshal_tsReject cur orig) ∧
+    (tsAccept cur orig = true ↔ ¬ Mieru.Gen.FactsC08.dataAckUnmarshal_tsReject cur orig) := by
+  simp only [tsAccept, Mieru.Gen.FactsC08.sessionUnmarshal_tsReject, Mieru.Gen.FactsC08.dataAckUnmarshal_tsReject,
+    withinRange_eq_gen, Decidable.not_not, and_self]
+
+/-- What `saltFromTime` hashes: for every element of the list of times, in order, SHA-256 of the 8-byte
+    big-endian `uint64(t.Unix())`. -/
+theorem tie_salt_hashing :
+    Mieru.Gen.FactsC08.saltFromTime_hashing =
+      ["b := make([]byte, 8)", "for _, t := range times", "binary.BigEndian.PutUint64(b, uint64(t.Unix()))",
+       "sha := sha256.Sum256(b)", "salts = append(salts, sha[:])", "return salts"] := by decide
+
+/-- The cache entry: looked up and stored under the password, keys derived by
+    `newBlockCipherList(password, now)`, `createTime = now`, `epoch = cipherKeyEpoch(now)`; the jitter is
+    one draw of `mrand.Intn(cacheValidMaxJitterMs)`; the decryptor refills from `getCachedCiphers(d.password,
+    now)`, stores what it got and tries `entry.cipherList`. -/
+theorem tie_cache_effects :
+    Mieru.Gen.FactsC08.getCachedCiphers_draws = ["cacheValidMaxJitterMs"] ∧
+    Mieru.Gen.FactsC08.getCachedCiphers_effects =
+      ["call blockCipherCache.Load(password)", "return c.(*cachedCiphers)",
+       "call newBlockCipherList([]byte(password), now)", "return nil", "field cipherList: blockCiphers",
+       "field createTime: now", "field epoch: cipherKeyEpoch(now)", "call blockCipherCache.Store(password, entry)",
+       "return entry"] ∧
+    Mieru.Gen.FactsC08.tryDecryptAt_effects =
+      ["entry := d.ciphers.Load()", "refetch: getCachedCiphers(d.password, now)", "refetch: d.ciphers.Store(entry)",
+       "block, plaintext, err := selectDecryptStateless(ciphertext, dst, entry.cipherList)"] := by decide
+
+/-- Which keys: key `i` of a list is derived from `saltFromTime(now)[i]`, i = 0, 1, 2; the receiver tries
+    the WHOLE list in order, first success wins; the sender takes index 1 (the current slot). -/
+theorem tie_key_selection :
+    Mieru.Gen.FactsC08.newBlockCipherList_shape =
+      ["salts := saltFromTime(now)", "for i := 0; i < 3; i++", "Salt: salts[i]", "Iter: KeyIter"] ∧
+    Mieru.Gen.FactsC08.selectDecryptStateless_loop =
+      ["range blocks", "decrypted, err := block.DecryptStatelessTo(ciphertext, dst)", "if err != nil { continue }",
+       "return block, decrypted, nil"] ∧
+    Mieru.Gen.FactsC08.selectDecrypt_loop =
+      ["range blocks", "decrypted, err := block.Decrypt(data)", "if err != nil { continue }",
+       "return block, decrypted, nil"] ∧
+    Mieru.Gen.FactsC08.blockCipherFromPassword_key =
+      ["call getCachedCiphers(string(password), time.Now())", "index entry.cipherList[1]"] := by decide
+
+/-- The stamp both `Unmarshal` functions test is the big-endian uint32 at bytes 2..5. -/
+theorem tie_stamp_source :
+    Mieru.Gen.FactsC08.unmarshal_stamp_sources =
+      ["sessionStruct.Unmarshal: originalTimestamp := binary.BigEndian.Uint32(b[2:])",
+       "dataAckStruct.Unmarshal: originalTimestamp := binary.BigEndian.Uint32(b[2:])"] := by decide
+
 /-! ## Non-vacuity and regression examples -/
 
 -- a straddling pair: sender 1 ns before the tie of slot 1700000040/1700000160, receiver 60 s later
@@ -452,11 +589,29 @@ example : tsAcceptU32 29836258 0 = true ∧ tsAcceptU32 29836258 4294967295 = tr
 -- … the int64 comparison rejects them
 example : tsAccept 29836258 0 = false ∧ tsAccept 29836258 4294967295 = false := by decide
 -- a state reached by the cache satisfies the invariant hypothesis
-example : Mieru.Proofs.C08.StateOk (fun e => e) (step cacheValidNs (fun e => e) State.empty (.tryDecrypt 5 0)).2 :=
+example : Mieru.Proofs.C08.StateOk (fun e => e) (step cacheValidNs (fun e => e) State.empty (.tryDecrypt 0 ⟨5, none⟩ 0)).2 :=
   (Mieru.Proofs.C08.step_ok _ _ _ Mieru.Proofs.C08.empty_ok _).2.2
 -- a history with a clock step backwards across a slot boundary
-example : (run cacheValidNs (fun e => e) State.empty [.lookup 61000000000 0, .tryDecrypt 59000000000 4999, .lookup 61000000001 0]).map
+example : (run cacheValidNs (fun e => e) State.empty
+      [.lookup ⟨61000000000, none⟩ 0, .tryDecrypt 0 ⟨59000000000, none⟩ 4999, .lookup ⟨61000000001, none⟩ 0]).map
     (fun p => (p.2.epoch, p.2.keys)) = [(120, 120), (0, 0), (120, 120)] := by decide
+-- two decryptors for one password: the second one picks up the cache entry the first one created; after the
+-- slot changes each refills on its own next use, never decrypting with the other slot's entry
+example : (run cacheValidNs (fun e => e) State.empty
+      [.tryDecrypt 0 ⟨61000000000, none⟩ 0, .tryDecrypt 1 ⟨62000000000, none⟩ 0, .tryDecrypt 1 ⟨181000000000, none⟩ 0,
+       .tryDecrypt 0 ⟨182000000000, none⟩ 0, .tryDecrypt 1 ⟨179000000000, none⟩ 0]).map
+    (fun p => (p.2.epoch, p.2.createTime.wall)) =
+      [(120, 61000000000), (120, 61000000000), (240, 181000000000), (240, 181000000000), (120, 179000000000)] := by decide
+-- monotonic and wall clock disagree (wall clock stepped back by 39 s inside one slot): the AGE is taken from the
+-- monotonic readings (40 s > 30 s: refreshed), the SLOT from the wall clock (still 120) …
+example : (run cacheValidNs (fun e => e) State.empty
+      [.lookup ⟨100000000000, some 1000000000000⟩ 0, .lookup ⟨101000000000, some 1040000000000⟩ 0]).map
+    (fun p => (p.2.epoch, p.2.createTime.wall)) = [(120, 100000000000), (120, 101000000000)] := by decide
+-- … and a wall clock stepped FORWARD across a slot boundary while 1 s passed monotonically: age 1 s, but the slot
+-- test alone forces the refresh (this is what `cache_never_crosses_slots` rests on)
+example : (run cacheValidNs (fun e => e) State.empty
+      [.lookup ⟨100000000000, some 1000000000000⟩ 0, .lookup ⟨181000000000, some 1001000000000⟩ 0]).map
+    (fun p => (p.2.epoch, p.2.createTime.wall)) = [(120, 100000000000), (240, 181000000000)] := by decide
 
 
 /-! ### The handshake theorems applied to a concrete instance (joint satisfiability of their hypotheses)
